@@ -280,6 +280,56 @@ inline std::vector<u16> Bases() {
     return b;
 }
 
+
+// A store into program memory is seen by the very next fetch of that cell, also inside one Run call and under a repeat: the fetch
+// view and the store view are the same bytes at every instant, not only between calls.
+inline void SelfModifying(Result& res, Ctx& c, std::unordered_set<u64>& dig) {
+    struct Case {
+        const char* name;
+        std::vector<u16> prog; // at 0x1000
+        u16 r4;                // program address the movd writes to
+        int cycles;
+        u64 want_a0;
+    };
+    const std::vector<Case> cases = {
+        {"movd overwrites the next instruction", {0x5FA8, 0x0000, 0x0000, 0x0000}, 0x1001, 2, 1},
+        {"movd overwrites the instruction after next", {0x5FA8, 0x0000, 0x0000, 0x0000}, 0x1002, 3, 1},
+        {"rep: movd overwrites itself, the remaining repetitions execute the new word", {0x0C02, 0x5FA8, 0x0000, 0x0000, 0x0000}, 0x1001, 4, 2},
+        {"bkrep: movd overwrites the last instruction of its block", {0x5C01, 0x1003, 0x5FA8, 0x0000, 0x0000, 0x0000}, 0x1003, 5, 2},
+    };
+    for (size_t ci = 0; ci < cases.size(); ++ci)
+        for (int split = 0; split < 2; ++split) {
+            const Case& k = cases[ci];
+            auto& t = *c.m->teakra;
+            t.Reset();
+            auto& r = c.m->regs();
+            for (size_t i = 0; i < k.prog.size(); ++i)
+                t.ProgramWrite(0x1000 + (u32)i, k.prog[i]);
+            for (u16 a = 0; a < 4; ++a)
+                t.DataWrite((u16)(0x0200 + a), 0x67D0); // inc a0
+            r.pc = 0x1000, r.r[0] = 0x0200, r.r[4] = k.r4, r.pcmhi = 0, r.a[0] = 0;
+            bool ok = true;
+            try {
+                if (split)
+                    for (int i = 0; i < k.cycles; ++i)
+                        t.Run(1);
+                else
+                    t.Run(k.cycles);
+            } catch (...) {
+                ok = false;
+            }
+            ++res.evaluations;
+            res.transitions += k.cycles;
+            dig.insert(Mix(ci * 2 + split) ^ r.a[0]);
+            u16 seen = t.ProgramRead(k.r4);
+            if (!ok || r.a[0] != k.want_a0 || seen != 0x67D0)
+                res.AddViolation(Fmt("c11:self-modifying:%s:%s", split ? "stepped" : "one-call", c.user ? "user-memory" : "own-memory"),
+                                 Fmt("%s (%s): program word %04X reads %04X through the host accessor after the store, a0=%llX, expected the new instruction to have executed %llu time(s)",
+                                     k.name, split ? "n x Run(1)" : "one Run call", k.r4, seen, (unsigned long long)r.a[0], (unsigned long long)k.want_a0),
+                                 Fmt("c11 %d selfmod 0", c.user ? 1 : 0));
+        }
+}
+
 inline int RunReplay(const std::string& r, Result& res) {
     QuietStdout quiet;
     int user;
@@ -288,6 +338,10 @@ inline int RunReplay(const std::string& r, Result& res) {
         Ctx c(user != 0);
         Check ck{res, c};
         ck.Word(x);
+    } else if (std::sscanf(r.c_str(), "c11 %d selfmod %u", &user, &x) == 2) {
+        Ctx c(user != 0);
+        std::unordered_set<u64> dg;
+        SelfModifying(res, c, dg);
     } else if (std::sscanf(r.c_str(), "c11 %d window %u", &user, &x) == 2) {
         Ctx c(user != 0);
         Check ck{res, c};
@@ -318,6 +372,8 @@ inline void Run(const Args& args, Result& res) {
                     }
                     for (size_t i = idx; i < bases.size(); i += cnt)
                         ck.Window(bases[i]);
+                    if (idx == 0)
+                        SelfModifying(local, c, ck.dig);
                     distinct += ck.dig.size();
                 }
                 blk.evaluations = local.evaluations;
@@ -331,7 +387,8 @@ inline void Run(const Args& args, Result& res) {
                "(little endian), instruction fetch (as operand word), movp (a0 / a0l+pcmhi), movd; for the 2^17 data words additionally "
                "DataWriteA32/ReadA32, DataWrite/Read with and without bypass for z_page = bank, 7 guest store forms and 6 guest load forms "
                "(each one real Run(1)); words under the MMIO window are checked for register-not-memory semantics with the memory observer; "
-               "133 window bases x 7 boundary offsets; everything for owned and user-supplied memory; distinct = distinct (word,value) pairs";
+               "133 window bases x 7 boundary offsets; stores into program memory seen by the next fetch inside one Run call (next instruction, under rep, at the end of a block); "
+               " everything for owned and user-supplied memory; distinct = distinct (word,value) pairs";
     res.bound = "all 262144 words x 2 memory ownership modes; all 128 bases k*0x200 plus 5 off-grid bases";
     res.assumptions = {"default paging mode (page_mode 0); data accesses with z_page=1 inside the window assert deliberately and are not compared",
                        "position-dependent pseudo-random 16-bit values (never 0) so that neighbouring cells always differ"};
